@@ -62,6 +62,8 @@ class RefFit(object):
         self.constraints = []
         self.fixed = {}
         self.n_par = 0
+        self.add_det = True  # option add_determinant_cost of the chi2 / Gaussian-approximation cost functions
+        self.cost_object = False  # cost function handed over as an object (no implicit chi2_no_errors fallback)
 
     # -- uncertainty model
     def cov_axis(self, axis, p):
@@ -144,12 +146,13 @@ class RefFit(object):
 
     def effective_cost_id(self):
         cid = self.cost_id
-        if cid == "chi2" and not self.has_sources():
+        if cid == "chi2" and not self.has_sources() and not self.cost_object:
             return "chi2_no_errors"  # no source declared: documented fallback of the default cost function
         return cid
 
     def cost(self, p, slope_scale=1.0, with_det=True, saturated=False):
         cid = self.effective_cost_id()
+        with_det = with_det and self.add_det
         p = [float(v) for v in p]
         m = np.asarray(self.model(p), dtype=float)
         cc = self.constraint_cost(p)
